@@ -59,6 +59,10 @@ theorem recover_truncate_exact (hB : BlockOK B) (rs : List Record) (n : Nat) :
   rw [read_segs B crc hB.2 _ 0 n _ none (WF_journal B hB.1 rs 0 (by have := hB.1; omega)) (by omega),
     recoverChunks_journal, completeAt_eq]
 
+/-- the count in T3 is what the layout recursion `wholeRecs` computes (the `p=` value the driver prints on jr-cut lines) -/
+theorem completeAt_is_wholeRecs (rs : List Record) (n : Nat) : completeAt B rs n = wholeRecs B 0 rs n :=
+  completeAt_eq B rs n
+
 /-- T3' `recover_truncate`: every byte prefix of a journal recovers to a prefix of the write calls -/
 theorem recover_truncate (hB : BlockOK B) (rs : List Record) (n : Nat) :
     ∃ k, recover B crc ((encodeJournal B crc rs).take n) = rs.take k :=
@@ -187,5 +191,11 @@ theorem strict_reader_refuses_torn_tail :
     recoverStrict 32 toyCrc ((encodeJournal 32 toyCrc tornRecs).take 32) = none ∧
     recoverStrict 32 toyCrc (encodeJournal 32 toyCrc tornRecs) = some tornRecs := by
   decide +kernel
+
+/-- the strict reader differs from the node's reader only by refusing: on ANY file content, when it opens the
+    journal it delivers the same records (so the seeded change is invisible until a journal is torn) -/
+theorem strict_reader_agrees_when_it_opens (data : Journal.Bytes) (l : List Record)
+    (h : recoverStrict B crc data = some l) : recover B crc data = l :=
+  strictAux_some B crc _ _ _ _ _ h
 
 end ZV.C08J
